@@ -8,7 +8,23 @@ def _sim(qt, init, mx):
             "defines": [f"SIM_QUEUE_TYPE={qt}", f"SIM_INITIAL_CAP={init}", f"SIM_MAX_CAP={mx}"]}
 
 
+def _fuzzbin(src):
+    return {"sources": [src, "engine/fuzz_driver.cpp"], "flavour": "fuzz", "libs": [], "harness": "-"}
+
+
+def _fuzzjob(binname, replay_bin, runs, procs, params=None, max_len=2400):
+    return {"bin": binname, "kind": "fuzz", "replay_bin": replay_bin, "only_tier": "thorough", "params": params or {},
+            "env": {"VERIF_FUZZ_OUT": "{out}", "VERIF_FUZZ_REPLAY": "{replay}", "VERIF_FUZZ_PARAMS": "{params}",
+                    "VERIF_FUZZ_SEED": "{seed}"},
+            "thorough": {"procs": procs, "timeout": 3600,
+                         "args": [f"-runs={runs}", "-seed={seed}", f"-max_len={max_len}", "-error_exitcode=1", "-timeout=60",
+                                  "-rss_limit_mb=6000", "-print_final_stats=1", "-verbosity=0", "{corpus}"]}}
+
+
 BINARIES = {
+    "tsfmt_fuzz": _fuzzbin("harness/tsfmt.cpp"),
+    "pattern_fuzz": _fuzzbin("harness/pattern.cpp"),
+    "named_fuzz": _fuzzbin("harness/named.cpp"),
     "sim_bb256": _sim("BoundedBlocking", 256, 256),
     "sim_bb1k": _sim("BoundedBlocking", 1024, 1024),
     "sim_bb4k": _sim("BoundedBlocking", 4096, 4096),
@@ -370,6 +386,7 @@ PROPERTIES = {
             {"bin": "pattern", "params": {"part": "both"},
              "quick": {"cases": 30000, "procs": 8, "maxlen": 400},
              "thorough": {"cases": 100000, "procs": 16, "maxlen": 600}},
+            _fuzzjob("pattern_fuzz", "pattern", 1500000, 4, params={"part": "both"}),
         ],
     },
     "C14": {
@@ -426,6 +443,7 @@ PROPERTIES = {
             {"bin": "named",
              "quick": {"cases": 20000, "procs": 8, "maxlen": 600},
              "thorough": {"cases": 45000, "procs": 16, "maxlen": 600}},
+            _fuzzjob("named_fuzz", "named", 600000, 4),
         ],
     },
     "C13": {
@@ -447,6 +465,7 @@ PROPERTIES = {
             {"bin": "tsfmt",
              "quick": {"cases": 8000, "procs": 8, "maxlen": 260},
              "thorough": {"cases": 150000, "procs": 16, "maxlen": 260}},
+            _fuzzjob("tsfmt_fuzz", "tsfmt", 1500000, 4, max_len=1200),
         ],
     },
 }
